@@ -359,7 +359,7 @@ def _fn_signature_end(toks, item):
     return item.body_open
 
 
-def splice_fn(repo, file, item_path, sections, trait=None, nth=0, opts=(), canary=False, rules=None, dropped=None):
+def splice_fn(repo, file, item_path, sections, trait=None, nth=0, opts=(), canary=False, rules=None, dropped=None, lift=False):
     path = os.path.join(repo, file)
     if not os.path.exists(path):
         raise AnchorLost('file missing: %s' % file)
@@ -377,6 +377,65 @@ def splice_fn(repo, file, item_path, sections, trait=None, nth=0, opts=(), canar
     _apply_rules(ed, toks, item.start_idx, item.end_idx, repo, opts, rules, dropped, file)
     body_open = _fn_signature_end(toks, item)
     body_close = item.end_idx
+    lift_info = None
+    if lift:
+        # X2g (lambda lifting): the braced body of the inline closure passed at `//@lift_anchor` (`RECV.method`) is emitted as a
+        # function of its own — header from `//@lift_sig`: the closure's parameters first, in order and by name, then the variables
+        # it captures, each of which must occur in the body — so that it can carry a contract.  The body text is the real text
+        # (every other rule applies inside it); nothing outside the closure is emitted by this splice.
+        fn_open, fn_close = body_open, body_close
+        want = [t.text for t in rs.tokenize(sections.get('lift_anchor', '')) if t.kind not in ('ws', 'comment', 'doc')]
+        if not want or 'lift_sig' not in sections:
+            raise AnchorLost('%s: lift needs //@lift_anchor and //@lift_sig' % item_path)
+        fci = [k for k in range(fn_open + 1, fn_close) if toks[k].kind not in ('ws', 'comment', 'doc')]
+        hits = [q for q in range(len(fci) - len(want)) if [toks[fci[q + j]].text for j in range(len(want))] == want]
+        if len(hits) != 1:
+            raise AnchorLost('%s: //@lift_anchor matches %d times (statement text changed?)' % (item_path, len(hits)))
+        q = hits[0] + len(want)
+        if toks[fci[q]].text != '(' or toks[fci[q + 1]].text != '|':
+            raise AnchorLost('%s: //@lift_anchor is not followed by an inline closure' % item_path)
+        q += 2
+        cparams = []
+        while q < len(fci) and toks[fci[q]].text != '|':
+            if toks[fci[q]].kind != 'ident' and toks[fci[q]].text != ',':
+                raise AnchorLost('%s: lifted closure has a parameter pattern, not plain names' % item_path)
+            if toks[fci[q]].kind == 'ident':
+                cparams.append(toks[fci[q]].text)
+            q += 1
+        q += 1
+        call_open = fci[hits[0] + len(want)]
+        call_close = rs.match_close(toks, call_open)
+        if q >= len(fci):
+            raise AnchorLost('%s: lifted closure has no body' % item_path)
+        lift_braces = False
+        if toks[fci[q]].text == '{' and [k for k in range(rs.match_close(toks, fci[q]) + 1, call_close) if toks[k].kind not in ('ws', 'comment', 'doc') and toks[k].text != ','] == []:
+            cl_open = fci[q]
+            cl_close = rs.match_close(toks, cl_open)
+        else:
+            # an expression body (`|x| EXPR`): the function body is `{ EXPR }`
+            cl_open = fci[q]
+            last = [k for k in range(cl_open, call_close) if toks[k].kind not in ('ws', 'comment', 'doc')]
+            while last and toks[last[-1]].text == ',':
+                last.pop()
+            cl_close = last[-1]
+            lift_braces = True
+        sig = sections['lift_sig'].strip()
+        msig = re.match(r'^fn\s+([A-Za-z_0-9]+)\s*(?:<[^>]*>)?\s*\((.*)\)\s*->', sig, re.S)
+        if not msig:
+            raise AnchorLost('%s: //@lift_sig is not `fn name(params) -> (r: T)`' % item_path)
+        pnames = [x.split(':')[0].strip() for x in msig.group(2).split(',') if ':' in x]
+        if pnames[:len(cparams)] != cparams:
+            raise AnchorLost('%s: lifted closure takes |%s|, the unit declares (%s)' % (item_path, ', '.join(cparams), ', '.join(pnames)))
+        body_words = set(toks[k].text for k in range(cl_open, cl_close + 1) if toks[k].kind == 'ident')
+        for cap in pnames[len(cparams):]:
+            if cap not in body_words:
+                raise AnchorLost('%s: lifted closure no longer mentions the captured `%s`' % (item_path, cap))
+        lift_info = (cl_open, cl_close, msig.group(1), sig, lift_braces)
+        # (an expression body has no braces of its own: the rules that look strictly inside the body get the tokens around it)
+        body_open, body_close = (cl_open, cl_close) if not lift_braces else (cl_open - 1, cl_close + 1)
+        rules['X2g-lift'] = rules.get('X2g-lift', 0) + 1
+        dropped.append('%s:%d closure body emitted as the function `%s` (X2g): its parameters, then the captured variables, become the parameters' % (
+            file, toks[cl_open].line, msig.group(1)))
     loops = rs.loops_in(toks, body_open, body_close)
     used = 0
     if 'for_as_while_let' in opts:
@@ -752,7 +811,10 @@ def splice_fn(repo, file, item_path, sections, trait=None, nth=0, opts=(), canar
             dropped.append('%s:%d statement replaced by an assumed environment call (X7): %s' % (
                 file, toks[a_idx].line, ' '.join(sections[rk].split())[:300]))
     for key, text in sections.items():
-        if key.startswith('replace ') or key.startswith('replace_all ') or key.startswith('with ') or key.startswith('desugar ') or key.startswith('any_'):
+        if key.startswith('replace ') or key.startswith('replace_all ') or key.startswith('with ') or key.startswith('desugar ') or key.startswith('any_') \
+                or key.startswith('lift_'):
+            continue
+        if lift_info is not None and key in ('spec', 'attr') or (lift_info is not None and key.startswith('ret ')):
             continue
         if not text.strip() and key != 'spec' and not key.startswith('ret '):
             continue
@@ -835,7 +897,21 @@ def splice_fn(repo, file, item_path, sections, trait=None, nth=0, opts=(), canar
             raise AnchorLost('unknown section %s' % key)
     if used:
         rules['X5-ghost'] = rules.get('X5-ghost', 0) + used
-    lines, lmap = ed.render(item.start_idx, item.end_idx, file)
+    if lift_info is not None:
+        cl_open, cl_close, lname, sig, lift_braces = lift_info
+        spec = sections.get('spec', '')
+        if canary:
+            spec = _add_false(spec)
+        head = (sections.get('attr', '').rstrip() + '\n' if sections.get('attr', '').strip() else '') + sig + '\n' + spec.rstrip()
+        lines, lmap = ed.render(cl_open, cl_close, file)
+        hl = head.split('\n')
+        if lift_braces:
+            hl = hl + ['{']
+            lines, lmap = lines + ['}'], lmap + [None]
+        lines = hl + lines
+        lmap = [None] * len(hl) + lmap
+    else:
+        lines, lmap = ed.render(item.start_idx, item.end_idx, file)
     # closures of the REAL text that no rule rewrote or replaced: Verus accepts some of them (e.g. inside Option::map) but cannot see
     # through them, so an obligation of a function that still holds one may be unprovable for reasons unrelated to the property
     closures_left = []
@@ -851,6 +927,8 @@ def splice_fn(repo, file, item_path, sections, trait=None, nth=0, opts=(), canar
         'line_start': toks[item.kw_idx].line, 'line_end': toks[item.end_idx].line,
         'loops': len(loops), 'closures_left': closures_left,
     }
+    if lift_info is not None:
+        info.update(item=item_path + '::' + lift_info[2], line_start=toks[lift_info[0]].line, line_end=toks[lift_info[1]].line, lifted_closure=True)
     return lines, lmap, info
 
 
@@ -1038,7 +1116,7 @@ def build(repo, template_path, canary=False) -> SpliceResult:
             if is_main:
                 canary_points += 1
             lines, lm, info = splice_fn(repo, kv['file'], kv['item'], sections, kv.get('trait'), int(kv.get('nth', 0)),
-                                        opts, is_canary_target, rules, dropped)
+                                        opts, is_canary_target, rules, dropped, lift=('lift' in kv))
             info['role'] = kv.get('role', 'helper')
             info['closures_ok'] = int(kv.get('closures_ok', 0))
             functions.append(info)
